@@ -10,7 +10,9 @@ LEVEL_TEXT = ('bounded symbolic execution (CrossHair/z3) of (a) BasePath.abspath
               'orders of the find_dirs set gives the same dependency set and the same set of rule '
               'lines, and EnvVarDict.changes does not depend on key order; (b\') the kernels whose '
               '*ordered* result reaches a primary build file (install map and recipe lines, order-only '
-              'directory prerequisites, uniques, option_list, ForwardOptions.recurse) are re-compiled '
+              'directory prerequisites, uniques, option_list, ForwardOptions.recurse, '
+              'PkgConfigInfo.finalize, Requirement(Set).split -- with the iteration order of verspec\'s '
+              'frozenset-backed specifier sets also under the schedule) are re-compiled '
               'from their live source with every set display / comprehension / set() call replaced '
               'by a set whose iteration order the harness controls, and must give the same ordered '
               'output under both schedules')
@@ -19,7 +21,8 @@ LEVEL_NOTE = ('low-strength claim, stated as such: hash seeds, pid, time and unr
               'only set whose iteration order reaches a written (auxiliary) file, and that the MSBuild '
               'solution iterates a set of configurations (not one of the primary build files of this '
               'property); whole-program byte comparison across PYTHONHASHSEED values is outside this '
-              'technique')
+              'technique as a deciding step; it is used as the replay: a counterexample of (b\') is '
+              're-run on the unmodified code in fresh interpreters under 12 real PYTHONHASHSEED values')
 HARNESS = 'vpx.harness.c13'
 FUNCTIONS = ['bfg9000.builtins.install.InstallOutputs.add/_add_implicit', 'install._install_files/_uninstall_files',
              'bfg9000.backends.make.writer.directory_deps/multitarget_rule', 'iterutils.uniques',
